@@ -385,9 +385,13 @@ impl Lmdb {
             let (key, val) = i?;
             let kind = u16::from_be_bytes(key[0..2].try_into().unwrap()).into();
             let author = Pubkey::from_bytes(key[2..34].try_into().unwrap());
-            let mut d = key[35..35 + 182].to_owned();
+            // An identifier of up to 182 bytes is zero-padded to 182 and its length is
+            // in key[34]; a longer one is stored whole and is the rest of the key.
+            let mut d = key[35..].to_owned();
             let when = Time::from_u64(val);
-            d.truncate(key[34] as usize);
+            if key.len() == 35 + 182 {
+                d.truncate(key[34] as usize);
+            }
             output.push((Addr { kind, author, d }, when));
         }
         Ok(output)
